@@ -244,13 +244,19 @@ def stage(ctx, prog, sub):
     return os.path.join(sub, prog.name + '.asm')
 
 
-def run_set(ctx, srcs, flags, subdirs, tag):
+def run_set(ctx, srcs, flags, subdirs, tag, outnames=None):
     """run asl on the list of sources; returns (Run, {src: p bytes or None}, {src: [diagnostic tuples]})"""
     tname = ctx.path('trace_%s.log' % tag)
     if os.path.exists(tname):
         os.unlink(tname)
+    pname = {s: (outnames[i] if outnames else s[:-4] + '.p') for i, s in enumerate(srcs)}
+    if outnames:
+        os.makedirs(ctx.path('out'), exist_ok=True)
+        flags = list(flags)
+        for o in outnames:
+            flags += ['-o', o]
     for s in srcs:
-        p = ctx.path(s[:-4] + '.p')
+        p = ctx.path(pname[s])
         if os.path.exists(p):
             os.unlink(p)
     inc = []
@@ -258,7 +264,7 @@ def run_set(ctx, srcs, flags, subdirs, tag):
         inc += ['-i', sd]
     r = ctx.run('asl', list(srcs) + list(flags) + inc + ['-i', corpus.include_dir(), '-q'],
                 env={'ASL_VERIF_TRACE': tname}, timeout=180)
-    ps = {s: ctx.read(s[:-4] + '.p') for s in srcs}
+    ps = {s: ctx.read(pname[s]) for s in srcs}
     diags = {s: [] for s in srcs}
     try:
         with open(tname, encoding='latin-1') as f:
@@ -346,11 +352,17 @@ def run_case(case, ctx):
             ctx.write(os.path.join(sub, 'zzgen.asm'), text)
             srcs.append(os.path.join(sub, 'zzgen.asm'))
             descr.append('G:' + text.replace('\n', ' / ')[:200])
-    out.sample = {'sequence': descr, 'flags': flags}
+    # one -o name per source ("the names will be assigned, one after the other, to the source files"), with and without a listing
+    onames = None
+    if kind in ('pair', 'gen', 'triple') and rng.random() < 0.3:
+        onames = ['out/x%d.p' % i for i in range(len(srcs))]
+        if rng.random() < 0.6:
+            flags = flags + ['-L']
+    out.sample = {'sequence': descr, 'flags': flags, 'output_names': onames}
     # solo references
     solo = {}
-    for s in srcs:
-        r, ps, dg, nf = run_set(ctx, [s], flags, subdirs, 'solo')
+    for si_, s in enumerate(srcs):
+        r, ps, dg, nf = run_set(ctx, [s], flags, subdirs, 'solo', outnames=[onames[si_]] if onames else None)
         if r.timed_out:
             out.inconc('timeout: solo')
             return
@@ -358,13 +370,15 @@ def run_case(case, ctx):
             out.violate(r.san, 'solo %s: %s' % (s, r.err.decode('latin-1')[-400:]))
             return
         solo[s] = (r.rc, ps[s], dg[s])
-    r, ps, dg, nf = run_set(ctx, srcs, flags, subdirs, 'multi')
+    r, ps, dg, nf = run_set(ctx, srcs, flags, subdirs, 'multi', outnames=onames)
     if r.timed_out:
         out.inconc('timeout: multi')
         return
     if r.san:
         out.violate(r.san, 'multi %s: %s' % (descr, r.err.decode('latin-1')[-400:]))
         return
+    if onames:
+        out.obs['invocations_with_output_names'] += 1
     # expected status: a fatal (3) stops the run; else 2 if any solo failed; else 0
     exp_rc = 0
     stopped_at = None
